@@ -47,7 +47,7 @@ func c08Round3(c *Ctx) {
 		if fn.Blocks == nil || !strings.Contains(fname(fn), "consensus/cometbft/apps/") {
 			continue
 		}
-		for _, b := range fn.Blocks {
+		for _, b := range blocksIP(fn) {
 			for _, in := range b.Instrs {
 				d, ok := in.(*ssa.Defer)
 				if !ok {
@@ -169,7 +169,7 @@ func c16VerifyNoPanic(c *Ctx) {
 	}
 	c.Analysed[fname(fn)] = true
 	var at ssa.Instruction
-	for _, b := range fn.Blocks {
+	for _, b := range blocksIP(fn) {
 		for _, in := range b.Instrs {
 			if _, ok := in.(*ssa.Panic); ok {
 				at = in
